@@ -116,6 +116,8 @@ def parse_unit(path):
                 last = None
             elif word == "unit":
                 segs.append(("unit", rest))
+            elif word == "strip_paths":
+                STRIP_PATHS.update(rest.split())
             else:
                 raise ExtractError("%s:%d: unknown directive %s" % (path, ln, word))
             continue
@@ -268,6 +270,7 @@ def _weave_fn(text, fs, fid, dserves, log, where, meta, in_trait_impl):
         fs = FnSpec(None)
     if fs.rewrites:
         text = X.apply_pattern_rewrites(text, fs.rewrites, log, where)
+    text = X.rewrite_slice_try_into(text, log, where)
     # R14: `mut self` receiver
     toks = lex(text)
     fn = X.split_fn(toks)
@@ -359,7 +362,36 @@ def _weave_fn(text, fs, fid, dserves, log, where, meta, in_trait_impl):
     return "/*@FN:%s*/\n%s%s\n/*@ENDFN:%s*/" % (fid, attrs, text, fid)
 
 
+STRIP_PATHS = set()
+
+
+def _strip_paths(text, log, where):
+    """R17: module path prefixes (`crate::`, `crypto::` ...) are dropped: the
+    single composed file has one flat namespace; only name resolution changes."""
+    if not STRIP_PATHS:
+        return text
+    toks = lex(text)
+    st = sig(toks)
+    drop = set()
+    n = 0
+    for i, t in enumerate(st):
+        if t.kind == IDENT and t.text in STRIP_PATHS and i + 1 < len(st) and st[i + 1].text == "::":
+            if i >= 1 and st[i - 1].text == "::":
+                continue
+            drop.add(id(t))
+            drop.add(id(st[i + 1]))
+            n += 1
+    if n:
+        log.add("R17", where, "module path prefix x%d" % n, "")
+    return untok([t for t in toks if id(t) not in drop])
+
+
 def _rename(text, renames, log, where):
+    text = _strip_paths(text, log, where)
+    return _rename0(text, renames, log, where)
+
+
+def _rename0(text, renames, log, where):
     """R15: identifier renaming to resolve names that the dropped `use` lines
     resolved (e.g. `Error` = crate::Error in one file, io::Error in another)"""
     if not renames:
@@ -397,6 +429,9 @@ def expand_extract(d, log, meta, unit_path):
             if k == "const":
                 where = "%s:%d" % (d.path, X._line_of(src, toks[s_].pos))
                 ctext = _rename(untok(X.rewrite(toks[s_:e_ + 1], log, where)), d.renames, log, where).strip()
+                if re.match(r"^pub\s*\(\s*crate\s*\)", ctext):
+                    log.add("R16", where, "pub(crate) const", "pub const")
+                    ctext = re.sub(r"^pub\s*\(\s*crate\s*\)\s*", "pub ", ctext)
                 if not ctext.startswith("pub"):
                     log.add("R16", where, "const", "pub const")
                     ctext = "pub " + ctext
